@@ -10,7 +10,7 @@ Open Scope N_scope.
 (* ---------------------------------------------------------------- exactness for every accepted value *)
 Lemma text_affinity T :
   match T with
-  | TString _ | TUnicode _ | TDecStr _ _ _ | TEnum _ | TBlob | TPickle | TUuid | TJson => col_affinity T = ATEXT
+  | TString _ | TUnicode _ | TDecStr _ _ _ | TEnum _ | TBlob | TPickle | TUuid | TJson | TForeignKeyStr => col_affinity T = ATEXT
   | _ => True
   end.
 Proof. destruct T; try exact I; now rewrite affinity_char. Qed.
@@ -33,8 +33,9 @@ Proof.
   destruct (needs_oracle T dbv) eqn:Hn; [now apply Hup, oracle_exact|]. clear Hg.
   unfold needs_oracle in Hn. apply orb_false_iff in Hn. destruct Hn as [Hrp Hil].
   pose proof (text_affinity T) as Hta.
-  assert (Hunw : forall T', T' <> TForeignKey -> fk_unwrap T' v = v) by (intros T' HT'; destruct T'; try reflexivity; congruence).
-  destruct T as [l|l| | | | | | | | | | | |size prec| |size prec q|vals| | | | | ];
+  assert (Hunw : forall T', T' <> TForeignKey -> T' <> TForeignKeyStr -> fk_unwrap T' v = v)
+    by (intros T' HT' HT''; destruct T'; try reflexivity; congruence).
+  destruct T as [l|l| | | | | | | | | | | |size prec| |size prec q|vals| | | | | | ];
     try discriminate Hrp; try (rewrite Hunw in Hfrom by discriminate); cbn [from_python] in Hfrom.
   - (* String *) apply Hup. destruct (v_string_shape v dbv Hv Hfrom) as [(s & ->)|(b & ->)]; [now apply exact_text|now apply (exact_no_literal C _ _ E_Value)].
   - (* Unicode *) apply Hup. destruct (v_unicode_shape v dbv Hv Hfrom) as (s & ->). now apply exact_text.
@@ -73,6 +74,7 @@ Proof.
   - (* Uuid *) apply Hup. destruct (uuid_shape C v dbv Hv Hfrom) as (s & ->). now apply exact_text.
   - (* JSON *) apply Hup. destruct (json_shape C v dbv Hv Hfrom) as (s & ->). now apply exact_text.
   - (* ForeignKey *) apply Hup. destruct (v_fk_shape v dbv Hv Hfrom) as (z & ->). apply exact_fk. cbn in Hil. now destruct (int64_ok z).
+  - (* ForeignKey to a string-keyed class *) apply Hup. destruct (v_fks_shape C v dbv Hv Hfrom) as (s & ->). now apply exact_text.
 Qed.
 
 Lemma exact_all C T v dbv :
@@ -91,8 +93,10 @@ Lemma query_literal C T v dbv :
   exists dbv', from_python C T v = Ok dbv' /\ literal C dbv' = literal C dbv.
 Proof.
   intros H. destruct T; try (exists dbv; split; [exact H|reflexivity]).
-  destruct v; try (exists dbv; split; [exact H|reflexivity]).
-  cbn in H. inv H. exists (PObj id). split; reflexivity.
+  - destruct v; try (exists dbv; split; [exact H|reflexivity]).
+    cbn in H. inv H. exists (PObj id). split; reflexivity.
+  - destruct v; try (exists dbv; split; [exact H|reflexivity]).
+    cbn in H. inv H. exists (PObjS id). split; reflexivity.
 Qed.
 
 (* ---------------------------------------------------------------- accepted values are normalised consistently, or refused *)
@@ -120,7 +124,7 @@ Proof.
   intros Hwf HT Hdom Hlaw Hor.
   assert (Hdec : v = PNone \/ v <> PNone) by (destruct v; auto; right; discriminate).
   destruct Hdec as [->|Hv]; [apply stored_none|].
-  destruct T as [l|l| | | | | | | | | | | |size prec| |size prec q|vals| | | | | ].
+  destruct T as [l|l| | | | | | | | | | | |size prec| |size prec q|vals| | | | | | ].
   - (* String *) destruct v; try congruence; cbn in Hdom; try discriminate. apply andb_true_iff in Hdom. destruct Hdom as [Hok _].
     apply stored_string; [left; eauto|assumption].
   - destruct v; try congruence; cbn in Hdom; try discriminate. apply andb_true_iff in Hdom. destruct Hdom as [Hok _].
@@ -144,7 +148,7 @@ Proof.
     destruct q; [now apply stored_decstr_quant|].
     cbn in HT. apply stored_decstr_plain; [lia|assumption].
   - (* Enum *) destruct v; try congruence; cbn in Hdom; try discriminate. apply andb_true_iff in Hdom. destruct Hdom as [Hm Hok].
-    apply stored_string; [right; right; eauto|assumption].
+    apply stored_string; [right; right; left; eauto|assumption].
   - (* BLOB *) destruct v; try congruence; cbn in Hdom; try discriminate. now apply stored_blob.
   - (* Pickle *) assert (Hl : b64_law C (pdumps C v) /\ ploads C (pdumps C v) = v) by (destruct v; try congruence; exact Hlaw).
     destruct Hl. now apply stored_pickle.
@@ -155,6 +159,9 @@ Proof.
   - (* ForeignKey *) destruct v; try congruence; cbn in Hdom; try discriminate.
     + apply (stored_fk C _ z); [now left|assumption].
     + apply (stored_fk C _ id); [now right|assumption].
+  - (* ForeignKey to a string-keyed class *) destruct v; try congruence; cbn in Hdom; try discriminate.
+    + apply stored_string; [right; right; right; reflexivity|assumption].
+    + now apply stored_fks_inst.
 Qed.
 
 Theorem roundtrip C T v w var :
@@ -190,4 +197,71 @@ Proof.
     destruct Hc as (c & d & _ & _ & _ & _ & Hf). exact Hf.
   - apply run_found; [assumption| |apply query_literal|assumption].
     intros dbv Hfrom. now apply (readable_all C T v dbv).
+Qed.
+
+(* ---------------------------------------------------------------- alternative input types of the date/time columns *)
+Lemma run_same_from C T v e w var :
+  v <> PNone -> e <> PNone -> fk_unwrap T v = v -> fk_unwrap T e = e ->
+  from_python C T v = from_python C T e -> run C T v w var = run C T e w var.
+Proof.
+  intros Hv He Hu1 Hu2 Hf.
+  assert (Hq : forall s, query_finds C T v s = query_finds C T e s)
+    by (intros s; rewrite !query_finds_some by assumption; now rewrite Hf).
+  unfold run. rewrite Hu1, Hu2, Hf.
+  destruct (from_python C T e) as [dbv|]; [|reflexivity].
+  destruct (to_python C T dbv) as [py|]; [|reflexivity].
+  destruct (db_store C T dbv) as [s|]; [|reflexivity].
+  rewrite Hq. reflexivity.
+Qed.
+
+Definition reads_as (C : codecs) (T : coltype) (v : pyval) (w : wpath) (var : variant) (e : pyval) : Prop :=
+  let o := run C T v w var in
+  o_write o = Ok tt /\
+  (exists c d, o_cache o = Some (Ok c) /\ o_db o = Some (Ok d) /\
+               ((e = c \/ pyeq e c = true) /\ pytype c = pytype e) /\
+               ((e = d \/ pyeq e d = true) /\ pytype d = pytype e)) /\
+  (forall p, o_cache_pre o = Some p -> exists c', p = Ok c' /\ (e = c' \/ pyeq e c' = true) /\ pytype c' = pytype e) /\
+  o_found o = Some (Ok true).
+
+Lemma reads_as_in_domain C T v e w var :
+  v <> PNone -> e <> PNone -> fk_unwrap T v = v -> fk_unwrap T e = e -> from_python C T v = from_python C T e ->
+  wf e = true -> coltype_ok T = true -> in_domain T e = true -> codec_law C T e ->
+  engine_roundtrip C T e = true -> guard_engine C T e = true ->
+  reads_as C T v w var e.
+Proof.
+  intros Hv He Hu1 Hu2 Hf Hwf HT Hdom Hlaw Hor Hg. unfold reads_as.
+  rewrite (run_same_from C T v e w var Hv He Hu1 Hu2 Hf).
+  pose proof (roundtrip C T e w var Hwf HT Hdom Hlaw Hor Hg) as H. unfold expected in H. rewrite Hu2 in H. exact H.
+Qed.
+
+Theorem alternative_inputs C T v w var :
+  wf v = true ->
+  match norm_spec T v with
+  | Some (Ok e) => reads_as C T v w var e
+  | Some (Raise x) =>
+      o_write (run C T v w var) = Raise x /\ o_stored (run C T v w var) = SNull /\
+      (w = WCreate -> o_row (run C T v w var) = false)
+  | None => True
+  end.
+Proof.
+  intros Hwf. destruct T; destruct v; cbn [norm_spec]; try exact I.
+  - (* DateTimeCol <- date *)
+    cbn in Hwf. apply reads_as_in_domain; try reflexivity; try discriminate; try exact I.
+    cbn. now rewrite Hwf.
+  - (* DateCol <- datetime *)
+    cbn in Hwf. apply andb_true_iff in Hwf. destruct Hwf as [Hd Ht].
+    apply reads_as_in_domain; try reflexivity; try discriminate; try exact I. exact Hd.
+  - (* TimeCol <- datetime *)
+    cbn in Hwf. apply andb_true_iff in Hwf. destruct Hwf as [Hd Ht].
+    apply reads_as_in_domain; try reflexivity; try discriminate; try exact I. exact Ht.
+  - (* TimeCol <- timedelta *)
+    cbn in Hwf. apply andb_true_iff in Hwf. destruct Hwf as [Hs Hu].
+    destruct (Z.eqb days 0) eqn:E.
+    + apply reads_as_in_domain; try reflexivity; try discriminate; try exact I.
+      * cbn [from_python v_time]. now rewrite E.
+      * cbn [wf]. now apply delta_time_valid.
+    + unfold run. cbn [fk_unwrap from_python v_time]. rewrite E. destruct w; repeat split; try reflexivity; discriminate.
+  - (* TimestampCol <- date *)
+    cbn in Hwf. apply reads_as_in_domain; try reflexivity; try discriminate; try exact I.
+    cbn. now rewrite Hwf.
 Qed.
